@@ -77,6 +77,13 @@ def gen_case(seed, tier, idx):
         decoy = {"pool_size": rc.choice([p for p in (4, 8, 24) if p != cfg["pool_size"]])}
         if cfg["front"] == "interval" and rc.random() < 0.4:
             decoy["levy"] = rc.choice([l for l in bm.LEVY if l != cfg["levy"]])
+        z = rc.random()
+        if z < 0.25:
+            decoy["dtype"] = "float32" if cfg["dtype"] == "float64" else "float64"
+        elif z < 0.5 and len(cfg["size"]) >= 1:
+            decoy["size"] = [1] + list(cfg["size"][1:])  # same entropy, another (broadcast-compatible) sample shape
+        if rc.random() < 0.4 and not cfg["halfway"]:
+            decoy["sweep"] = 130  # the decoy is also driven through a long run of small steps (its estimator refines)
         case.update(ops=ops, ops2=[], probes=[], decoy=decoy)
         return case
     if exp == "A":
@@ -184,9 +191,19 @@ def _run_D(case, log, probes):
     # parent: decoy first (same entropy, other options), queried over the same intervals
     st = Streams(1)
     dcfg = dict(cfg)
-    dcfg.update(case["decoy"])
+    dcfg.update({k: v for k, v in case["decoy"].items() if k != "sweep"})
+    if case["decoy"].get("sweep"):
+        dcfg["dt"] = None
     decoy = bm.build(dcfg, st.get("entropy_decoy"), faults=False)
     exd = bm.BMExec(decoy, log)
+    if case["decoy"].get("sweep"):
+        n_sw = int(case["decoy"]["sweep"])
+        d0, d1 = decoy.dom
+        try:
+            for k in range(n_sw):
+                exd.raw(d0 + (d1 - d0) * k / n_sw, d0 + (d1 - d0) * (k + 1) / n_sw, False, False, None, ("decoy_sweep", k))
+        except bm.CaseTooExpensive:
+            pass
     b1 = bm.build(cfg, st.get("entropy"))
     e1 = bm.BMExec(b1, log)
     mine = []
